@@ -41,6 +41,12 @@ def ev(e):
         return '(Lifetime %s %s)' % (L.boolean(e[1]), L.boolean(e[2]))
     if e[0] == 'cancel':
         return '(CancelPilots %s)' % L.boolean(e[1])
+    if e[0] == 'service':
+        return '(ServiceInfo %s %s)' % (L.boolean(e[1]), L.boolean(e[2]))
+    if e[0] == 'heartbeat':
+        return '(Heartbeat %s)' % L.boolean(e[1])
+    if e[0] == 'other':
+        return 'OtherCmd'
     return 'Terminate'
 
 
@@ -57,8 +63,8 @@ class C14(Prop):
                  'AgentCause.Model vs Agent_0._check_lifetime/_ctrl_cancel_pilots/stop/finalize')
     rule = ('every (current,target) pair of _pilot_state_progress (exhaustive); random notification sequences over '
             '1-3 pilots incl. unknown pids, duplicates, late non-final updates after final; all agent event '
-            'sequences of length <= 4 over {lifetime(no runtime/not exceeded/exceeded), cancel(mine/other), terminate} '
-            '(exhaustive); non-trivial = pair with distinct states, sequence with >= 3 notifications incl. a final one, '
+            'sequences of length <= 3 (quick) / 4 (thorough) over {lifetime(no runtime/not exceeded/exceeded), cancel(mine/other), terminate} '
+            'incl. service_info (startup failure or success, known/unknown service), heartbeat and unknown commands, all delivered through the real Agent_0.control_cb (exhaustive); non-trivial = pair with distinct states, sequence with >= 3 notifications incl. a final one, '
             'event sequence containing a terminating event')
     trusted = [
         'translator translators/states.py (ast -> Gen/StatesTables.v; fail closed)',
@@ -90,7 +96,9 @@ class C14(Prop):
             yield {'kind': 'run', 'pilots': pilots, 'notes': ns}
         import itertools
         evs = [['lifetime', False, True], ['lifetime', True, False], ['lifetime', True, True],
-               ['cancel', True], ['cancel', False], ['terminate']]
+               ['cancel', True], ['cancel', False], ['terminate'],
+               ['service', True, True], ['service', True, False], ['service', False, True],
+               ['heartbeat', True], ['other']]
         maxlen = 3 if tier == 'quick' else 4
         for k in range(0, maxlen + 1):
             for seq in itertools.product(evs, repeat=k):
@@ -174,6 +182,12 @@ class C14(Prop):
         a.stage_output = mock.MagicMock()
         advanced = []
         a.advance = lambda things, state=None, publish=False, push=False: advanced.append(things['state'])
+        a._prof = mock.MagicMock()
+        a._pmgr = 'pmgr.0000'
+        a._reg = {}
+        a._service_uid_launched = 'service.0000'
+        a._service_uids_running = []
+        a._service_start_evt = threading.Event()
         try:
             os.unlink('./killme.signal')
         except OSError:
@@ -187,8 +201,19 @@ class C14(Prop):
                     with mock.patch('radical.pilot.agent.agent_0.time.time', return_value=now):
                         a._check_lifetime()
                 elif e[0] == 'cancel':
-                    a._ctrl_cancel_pilots({'cmd': 'cancel_pilots',
-                                           'arg': {'uids': ['pilot.0000' if e[1] else 'pilot.0009']}})
+                    # through the real dispatcher of control messages
+                    a.control_cb('control_pubsub', {'cmd': 'cancel_pilots',
+                                                    'arg': {'uids': ['pilot.0000' if e[1] else 'pilot.0009']}})
+                elif e[0] == 'service':
+                    a.control_cb('control_pubsub', {'cmd': 'service_info',
+                                                    'arg': {'uid': 'service.0000' if e[1] else 'service.0007',
+                                                            'error': 'startup failed' if e[2] else None,
+                                                            'info': {}}})
+                elif e[0] == 'heartbeat':
+                    a.control_cb('control_pubsub', {'cmd': 'pmgr_heartbeat',
+                                                    'arg': {'pmgr': 'pmgr.0000' if e[1] else 'pmgr.0009'}})
+                elif e[0] == 'other':
+                    a.control_cb('control_pubsub', {'cmd': 'rpc_req', 'arg': {}})
                 else:
                     a.stop()
             a.finalize()
